@@ -237,7 +237,28 @@ class Loader:
         E = self.module_engine()
         self.loading.append(full)
         try:
-            E.exec_block(tree.body, env)
+            for stmt in tree.body:
+                try:
+                    E.exec_stmt(stmt, env)
+                except (Unsupported, PyExc, RecursionError, AttributeError, TypeError, KeyError, IndexError,
+                        ValueError, AssertionError, NotImplementedError) as ex:
+                    if isinstance(stmt, (ast.Import, ast.ImportFrom)) or top in ("spec", "contracts", "vc"):
+                        raise
+                    # a module-level statement outside the subset (or failing in the model): poison the names it
+                    # binds instead of giving up on the whole module
+                    from .interp import Poison
+                    reason = "%s line %d: %s: %s" % (os.path.basename(path), getattr(stmt, "lineno", 0),
+                                                     type(ex).__name__, str(ex)[:120])
+                    names = set()
+                    if isinstance(stmt, (ast.FunctionDef, ast.ClassDef)):
+                        names.add(stmt.name)
+                    for n in ast.walk(stmt):
+                        if isinstance(n, ast.Name) and isinstance(n.ctx, ast.Store):
+                            names.add(n.id)
+                    if isinstance(stmt, (ast.FunctionDef, ast.ClassDef)):
+                        names = {stmt.name}
+                    for n in names:
+                        mod.globals[n] = Poison(reason)
         finally:
             self.loading.pop()
         if "." in full:
